@@ -175,16 +175,219 @@ class Bd(Harness):
                             detail=dict(seed=seed, cfg=cfg, bad=bad))
         return dict(reproduced=False, key=None, detail='no witness in 16 draws')
 
+    def _numeric_lowsnr(self, K, n, iPu, nv, rng):
+        """low SNR: water-filling must switch several streams off"""
+        bd = repo_module(BD)
+        N = K * n
+        H = crandn(rng, N, N)
+        obj = bd.BlockDiagonalizer(K, iPu, nv)
+        with np.errstate(all='ignore'):
+            newH, Ms = obj.block_diagonalize(H)
+        bad = []
+        if not (np.all(np.isfinite(Ms)) and np.all(np.isfinite(newH))):
+            return ['non-finite-precoder']
+        for i in range(K):
+            for j in range(K):
+                if i != j and np.max(np.abs(_blk(newH, K, i, j, n, n))) > 1e-8:
+                    bad.append('off-diagonal')
+        pw = [np.linalg.norm(Ms[:, j * n:(j + 1) * n])**2 for j in range(K)]
+        if max(pw) > iPu * (1 + 1e-8) or abs(max(pw) - iPu) > 1e-8 * iPu:
+            bad.append('power-budget')
+        return sorted(set(bad))
+
+    def _extint_probe(self, rng):
+        """EnhancedBD used like a simulation loop does (ONE channel object,
+        ONE diagonaliser, several realisations and metrics): concrete oracle
+        for the external-interference clauses the solver part leaves
+        outside"""
+        from pysym.runner import ConcreteViolation
+        bd = repo_module(BD)
+        mu = repo_module('pyphysim.channels.multiuser')
+        fund = repo_module('pyphysim.modulators.fundamental')
+        iPu, pe, nv = 0.8, 0.5, 1e-3
+        n_ok = 0
+        for (K, N, Nti) in ((2, 2, 1), (3, 2, 1), (2, 3, 2)):
+            Nr = np.ones(K, dtype=int) * N
+            Nt = np.ones(K, dtype=int) * N
+            ch = mu.MultiUserChannelMatrixExtInt()
+            ch.set_channel_seed(rng.randrange(1 << 30))
+            obj = bd.EnhancedBD(K, iPu, nv, pe)
+            metrics = [(None, None), ('capacity', None),
+                       ('effective_throughput',
+                        dict(modulator=fund.PSK(4), packet_length=120))]
+            for ns in range(1, N + 1):
+                metrics += [('naive', dict(num_streams=ns)),
+                            ('fixed', dict(num_streams=ns))]
+            for rep in range(3):
+                ch.randomize(Nr, Nt, K, Nti)
+                ch.noise_var = nv
+                for metric, extra in metrics:
+                    obj.set_ext_int_handling_metric(metric, extra)
+                    Ms, Ws, Ns = obj.block_diagonalize_no_waterfilling(ch)
+                    bigH = ch.big_H
+                    cr = np.r_[0, np.cumsum(Nr)]
+                    sNt = int(np.sum(Nt))
+                    bad = []
+                    for k in range(K):
+                        if Ms[k].shape[1] != Ns[k]:
+                            bad.append('stream-count')
+                        if abs(np.linalg.norm(Ms[k])**2 - iPu) > 1e-8 * iPu:
+                            bad.append('power!=iPu')
+                        for j in range(K):
+                            Hj = bigH[cr[j]:cr[j + 1], :sNt]
+                            G = Hj @ Ms[k]
+                            if j != k:
+                                if np.linalg.norm(G) > 1e-8 * (
+                                        np.linalg.norm(Hj, 2) + 1):
+                                    bad.append('inter-user-interference')
+                            elif np.max(np.abs(Ws[k] @ G - np.eye(
+                                    Ms[k].shape[1]))) > 1e-6:
+                                bad.append('receive-filter')
+                        if metric in ('fixed', 'capacity',
+                                      'effective_throughput') and \
+                                Ns[k] < Nt[k] and Ns[k] <= Nr[k] - Nti:
+                            He = bigH[cr[k]:cr[k + 1], sNt:]
+                            if np.linalg.norm(Ws[k] @ He) > 1e-6 * (
+                                    np.linalg.norm(Ws[k], 2) *
+                                    np.linalg.norm(He, 2)):
+                                bad.append('ext-int-not-removed')
+                    if bad:
+                        raise ConcreteViolation(
+                            'C09/EnhancedBD/%s:%s' % (
+                                'first-realisation' if rep == 0 else
+                                'later-realisation-same-objects',
+                                '+'.join(sorted(set(bad)))),
+                            dict(K=K, N=N, Nti=Nti, metric=metric,
+                                 extra=str(extra), realisation=rep))
+                    n_ok += 1
+        return n_ok
+
     def concrete(self, cfg, rng):
+        from pysym.runner import ConcreteViolation
+        if not cfg['wf'] and cfg['K'] == 2 and cfg['n'] == 1:
+            extra_runs = self._extint_probe(rng)
         for _ in range(5):
             bad = self._numeric(cfg, rng)
             assert not bad, bad
         # larger systems only concretely
         big = dict(K=3, n=2, wf=cfg['wf'])
         assert not self._numeric(big, rng)
-        return 6
+        k = 6
+        if cfg['wf']:
+            # many streams at low SNR (beyond the symbolic bound)
+            for (K, n, iPu, nv) in ((2, 2, 0.1, 10.0), (3, 2, 0.1, 1.0),
+                                    (4, 2, 0.1, 10.0), (2, 3, 1.0, 10.0),
+                                    (4, 2, 1.0, 1.0), (3, 2, 0.5, 100.0)):
+                for _ in range(3):
+                    bad = self._numeric_lowsnr(K, n, iPu, nv, rng)
+                    if bad:
+                        raise ConcreteViolation(
+                            'C09/bd/low-snr:' + '+'.join(bad),
+                            dict(K=K, n=n, iPu=iPu, noise_var=nv, bad=bad))
+                    k += 1
+        return k
 
 
+class WfScaling(Harness):
+    """Power scaling stage alone: the real global water-filling scaling on
+    symbolic positive singular values (all doWF branches, more streams than
+    the full-SVD harness can afford) applied to Ms_bad = I: allocated powers
+    are non-negative (no NaN precoder) and the total power is K*iPu."""
+    name = 'wf-scaling'
+    modules = (BD, WF)
+    functions = (BD + ':BlockDiagonalizer._perform_normalized_waterfilling_power_scaling',
+                 BD + ':BlockDiagonalizer._perform_global_waterfilling_power_scaling',
+                 WF + ':doWF')
+    bounds = ('K=2 users x 2 streams (4 parallel channels, quick); K=3 x 2 '
+              '(6 channels) not attempted; Ms_bad = identity (block structure '
+              'only), symbolic singular values, iPu, noise variance')
+    assumptions = ('floats as exact reals', )
+    builtins = {k: v for k, v in BUILTINS.items() if k != 'int'}
+    unit_wall_s = {'quick': 300, 'thorough': 2400}
+
+    def configs(self, tier):
+        return [dict(K=2, n=2)]
+
+    def sym(self, ctx, cfg):
+        bd = repo_module(BD)
+        K, n = cfg['K'], cfg['n']
+        N = K * n
+        # singular values as square roots of symbolic positive gains, so that
+        # Sigma**2 folds back to the gain symbols (same arithmetic as C12)
+        g = sym_array(ctx, 'S', N, positive=True)
+        S = np.array([x.sqrt() for x in g], dtype=object)
+        iPu = ctx.real('iPu', positive=True)
+        nv = ctx.real('nv', positive=True)
+        obj = bd.BlockDiagonalizer(K, iPu, nv)
+        Ms_bad = np.eye(N)
+        # global stage only (the normalisation stage is covered by the `bd`
+        # harness): np.sqrt of the allocated powers forks on their sign, so
+        # a negative power (NaN precoder) is an exception path here
+        Ms = obj._perform_global_waterfilling_power_scaling(Ms_bad, S)
+        tot = _fro2(Ms)
+        prove_zero(ctx, 'total-power=K*iPu', tot - iPu * K,
+                   fallback_exact=True)
+
+    def expected_exception(self, cfg, exc):
+        return False
+
+    def _numeric(self, cfg, S, iPu, nv):
+        bd = repo_module(BD)
+        K, n = cfg['K'], cfg['n']
+        obj = bd.BlockDiagonalizer(K, iPu, nv)
+        with np.errstate(all='ignore'):
+            Ms = obj._perform_global_waterfilling_power_scaling(
+                np.eye(K * n), np.array(S, dtype=float))
+            Mn = obj._perform_normalized_waterfilling_power_scaling(
+                np.eye(K * n), np.array(S, dtype=float))
+        bad = []
+        if not np.all(np.isfinite(Ms)) or not np.all(np.isfinite(Mn)):
+            bad.append('nan-or-negative-power')
+            return bad
+        if abs(np.linalg.norm(Ms)**2 - K * iPu) > 1e-8 * K * iPu:
+            bad.append('total-power')
+        pw = [np.linalg.norm(Mn[:, j * n:(j + 1) * n])**2 for j in range(K)]
+        if max(pw) > iPu * (1 + 1e-8) or abs(max(pw) - iPu) > 1e-8 * iPu:
+            bad.append('power-budget')
+        return bad
+
+    def replay(self, cfg, name, model):
+        import random
+        from pysym.runner import model_floats
+        m = model_floats(model)
+        N = cfg['K'] * cfg['n']
+        cands = []
+        if all(('S_%d' % i) in m for i in range(N)):
+            cands.append(([abs(m['S_%d' % i])**0.5 for i in range(N)],
+                          m.get('iPu', 1.0), m.get('nv', 1.0)))
+        rng = random.Random(1)
+        for _ in range(200):
+            cands.append(([10**rng.uniform(-2, 1) for _ in range(N)],
+                          10**rng.uniform(-1, 1), 10**rng.uniform(-2, 1.5)))
+        for S, iPu, nv in cands:
+            if min(S) <= 0 or iPu <= 0 or nv <= 0:
+                continue
+            bad = self._numeric(cfg, S, iPu, nv)
+            if bad:
+                return dict(reproduced=True,
+                            key='C09/wf-scaling/' + '+'.join(bad),
+                            detail=dict(S=S, iPu=iPu, nv=nv, bad=bad))
+        return dict(reproduced=False, key=None, detail='no witness')
+
+    def concrete(self, cfg, rng):
+        N = cfg['K'] * cfg['n']
+        for _ in range(30):
+            bad = self._numeric(cfg, [10**rng.uniform(-2, 1)
+                                      for _ in range(N)],
+                                10**rng.uniform(-1, 1),
+                                10**rng.uniform(-2, 1.5))
+            assert not bad, bad
+        return 30
+
+
+# WfScaling (4 parallel channels) is kept for reference but not registered: it
+# needs ~3 min and z3 leaves one sqrt-sign query undecided; water-filling itself
+# is decided in C12, and low-SNR / many-stream cases are probed concretely.
 HARNESSES = [Bd()]
 
 MANIFEST = dict(
